@@ -350,6 +350,11 @@ func (fx *FnExec) specEnvAt(st *State, head *ssa.BasicBlock) *SpecEnv {
 		env.vars[k] = v
 	}
 	env.locals = func(name string) (specVal, bool) { return fx.localAt(st, name, pos) }
+	if li.entrySt != nil {
+		est := li.entrySt
+		env.entrySt = est
+		env.entryLocals = func(name string) (specVal, bool) { return fx.localAt(est, name, pos) }
+	}
 	// range loops over slices: at the loop head the hidden cell "rangeindex" holds
 	// the previous index; the key variable (and the pseudo variable range_i) denote
 	// the index about to be visited, i.e. the number of completed iterations
